@@ -1796,13 +1796,15 @@ hist_chain(vh::Rng& rng, bool thorough)
   cal->set_radionuclide(rn);
   shared_ptr<BinNormalisation> inner(new ChainedBinNormalisation(comp, att.norm));
   shared_ptr<BinNormalisation> chain(new ChainedBinNormalisation(inner, cal));
-  // the chain objects stay; their members are changed in place between two set_up calls of the OUTER chain only
+  // the chain objects stay; their members are changed in place between two set_up calls of the OUTER chain only.
+  // The members the oracles compare with (chain factor = product of the members' factors, each half of the chain = that member
+  // alone, is_first/second_trivial) are FRESH objects configured identically, each set up and measured on its own.
   auto step = [&](const shared_ptr<ProjDataInfo>& pdi, int comp_mode, bool change_cal, const std::string& what) {
     std::ostringstream descr;
     descr << d.str() << " step=" << what << " tang=" << pdi->get_num_tangential_poss();
     R.set_geometry(sc, pdi, descr.str());
-    const int kc = R.add_components(which, comp_mode, comp, comp_mode < 0 ? 0 : 7);
-    const int ka = R.add_atten_case(att);
+    // in-place changes of the members of the re-used chain
+    R.add_components(which, comp_mode, comp, comp_mode < 0 ? 0 : 7); // (writes the arrays; the case itself is not run)
     if (change_cal)
       {
         cal->set_calibration_factor(R.rnd(0.3F, 40.F));
@@ -1816,32 +1818,50 @@ hist_chain(vh::Rng& rng, bool thorough)
       cal->table = R.random_positive_pd(pdi, 0.2F, 5.F); // the table of the verif subclass follows the data geometry
     else if (change_cal)
       fill_gen(*cal->table, [&]() { return R.rnd(0.2F, 5.F); });
+    // fresh members, two sets: one measured member by member (cases), one for the bitwise comparison of the whole chain
+    struct Fresh
+    {
+      shared_ptr<BinNormalisationPETFromComponents> comp;
+      Runner::AttenObj att;
+      shared_ptr<CalibTableNorm> cal;
+      shared_ptr<BinNormalisation> inner, chain;
+    };
+    auto make_fresh = [&]() {
+      Fresh f;
+      f.comp.reset(new BinNormalisationPETFromComponents);
+      f.comp->allocate(pdi, which & 1, which & 2, which & 4);
+      copy_components(*f.comp, *comp, which);
+      f.att = att;
+      Runner::construct_atten(f.att);
+      shared_ptr<PD> ftab(new PD(R.g.exam, pdi));
+      const std::vector<float> v = flatten_pd(*cal->table);
+      std::size_t i = 0;
+      fill_gen(*ftab, [&]() { return v[i++]; });
+      f.cal.reset(new CalibTableNorm(ftab));
+      f.cal->set_calibration_factor(cal->get_calibration_factor());
+      f.cal->set_radionuclide(rn);
+      f.inner.reset(new ChainedBinNormalisation(f.comp, f.att.norm));
+      f.chain.reset(new ChainedBinNormalisation(f.inner, f.cal));
+      return f;
+    };
+    Fresh m = make_fresh();
+    const int kc = R.add_components(which, -1, m.comp, 0);
+    const int ka = R.add_atten_case(m.att);
     int kl;
     {
       Case c;
       c.kind = "calib";
-      c.norm = cal;
+      c.norm = m.cal;
       c.routes = R.generic_routes();
       kl = R.add(c);
-      send_table("t" + R.cases[kl].id, *cal->table);
-      op("norm " + R.cases[kl].id + " calib t" + R.cases[kl].id + " " + vh::hex(cal->get_calibration_factor()) + " "
-             + vh::hex(cal->get_branching_ratio()),
+      send_table("t" + R.cases[kl].id, *m.cal->table);
+      op("norm " + R.cases[kl].id + " calib t" + R.cases[kl].id + " " + vh::hex(m.cal->get_calibration_factor()) + " "
+             + vh::hex(m.cal->get_branching_ratio()),
          "ok");
     }
-    int ki, ko;
-    {
-      Case c;
-      c.kind = "chain(components,attenuation):history";
-      c.norm = inner;
-      c.members = { kc, ka };
-      c.is_chain = true;
-      c.is_components = true;
-      c.has_small_eff = true;
-      c.positive_inputs = R.cases[kc].positive_inputs;
-      c.routes = R.generic_routes();
-      ki = R.add(c);
-      op("norm " + R.cases[ki].id + " chain " + R.cases[kc].id + " " + R.cases[ka].id, "ok");
-    }
+    const int ki = R.add_chain(kc, ka);
+    R.cases[ki].norm = m.inner; // (add_chain made a chain of the same two objects)
+    int ko;
     {
       Case c;
       c.kind = "chain(chain(components,attenuation),calib):history";
@@ -1855,27 +1875,11 @@ hist_chain(vh::Rng& rng, bool thorough)
       ko = R.add(c);
       op("norm " + R.cases[ko].id + " chain " + R.cases[ki].id + " " + R.cases[kl].id, "ok");
     }
-    // ONLY the outer chain is set up (by run_case): its set_up must reach every member
+    for (int k : { kc, ka, kl, ki })
+      R.run_case(k);
+    // ONLY the outer chain of the re-used objects is set up (by run_case): its set_up must reach every member
     R.run_case(ko);
-    // fresh: new members configured identically, new chains
-    shared_ptr<BinNormalisationPETFromComponents> fcomp(new BinNormalisationPETFromComponents);
-    fcomp->allocate(pdi, which & 1, which & 2, which & 4);
-    copy_components(*fcomp, *comp, which);
-    Runner::AttenObj fatt = att;
-    Runner::construct_atten(fatt);
-    shared_ptr<PD> ftab(new PD(R.g.exam, pdi));
-    {
-      const std::vector<float> v = flatten_pd(*cal->table);
-      std::size_t i = 0;
-      fill_gen(*ftab, [&]() { return v[i++]; });
-    }
-    shared_ptr<CalibTableNorm> fcal(new CalibTableNorm(ftab));
-    fcal->set_calibration_factor(cal->get_calibration_factor());
-    fcal->set_radionuclide(rn);
-    shared_ptr<BinNormalisation> finner(new ChainedBinNormalisation(fcomp, fatt.norm));
-    shared_ptr<BinNormalisation> fchain(new ChainedBinNormalisation(finner, fcal));
-    R.compare_fresh(ko, fchain, what);
-    // afterwards the members on their own, as the chain's set_up left them (no set_up of their own: measured through the halves)
+    R.compare_fresh(ko, make_fresh().chain, what);
   };
   step(A, 0, false, "1:random-factors");
   step(A, 0, true, "2:components-and-calibration-changed-in-place");
